@@ -1,11 +1,11 @@
 #!/bin/bash
 # validate_round3.sh <agentdir e.g. A1> <n>: like validate_seeded.sh for the cross-property round: the property comes from the
 # first line of the agent's README ("PROPERTY: Cnn"); the seeded id is the next free number for that property.
-A=$1; N=$2; W=/tmp/wt3/$A; M=$W/mutants/$N
+A=$1; N=$2; W=${R3ROOT:-/tmp/wt3}/$A; M=$W/mutants/$N
 P=$(head -1 $M/README.md | sed -n 's/^PROPERTY: *\(C[0-9]*\).*/\1/p')
 [ -n "$P" ] || { echo "no PROPERTY line in $M/README.md"; exit 3; }
 k=1; while [ -d /verif/seeded/$P-$k ]; do k=$((k+1)); done
-mkdir -p /tmp/wt3/$P; rm -rf /tmp/wt3/$P/link; ln -sfn $W /tmp/wt3/$P/link
+mkdir -p ${R3ROOT:-/tmp/wt3}/$P; rm -rf ${R3ROOT:-/tmp/wt3}/$P/link; ln -sfn $W ${R3ROOT:-/tmp/wt3}/$P/link
 # reuse validate_seeded.sh through a shim directory layout: WTROOT/<P>/mutants/<N>
-rm -rf /tmp/wt3s; mkdir -p /tmp/wt3s; ln -sfn $W /tmp/wt3s/$P
-WTROOT=/tmp/wt3s OFF=$((k-N)) /verif/tools/validate_seeded.sh $P $N "${@:3}"
+rm -rf ${R3ROOT:-/tmp/wt3}s; mkdir -p ${R3ROOT:-/tmp/wt3}s; ln -sfn $W ${R3ROOT:-/tmp/wt3}s/$P
+WTROOT=${R3ROOT:-/tmp/wt3}s OFF=$((k-N)) /verif/tools/validate_seeded.sh $P $N "${@:3}"
